@@ -52,6 +52,9 @@ def queries(tier):
         qs.append(Query("allocfail-http-errpage-code%d-k%d" % (code, k), "c20/http_errpage.c", tus=["core/list.c", "core/strs.c"], env=ENV + ["env_aio.c", "env_msg.c"],
                         defs={"CODE": code, "FAILK": k}, unwind=20, timeout=120, concrete=True, group="c20/http_errpage.c",
                         params={"entry_point": "nni_http_server_set_error_page (status %d, a page for 404 exists)" % code, "failing_allocation": k}))
+    qs.append(Query("allocfail-http-server-connection", "c20/http_errpage.c", tus=["core/list.c", "core/strs.c"], env=ENV + ["env_aio.c", "env_msg.c"], defs={"SCONN": 1}, unwind=20,
+                    timeout=120, concrete=True, group="~c20/http_errpage.c#sconn", params={"entry_point": "http_sconn_init (a connection arrives at the HTTP / websocket server), then the reaper's http_sc_reap",
+                                                                                          "failing_allocation": "the connection's HTTP state (nni_http_init)"}))
     # SUB: subscribe (topic node, topic bytes), RECVBUF resize, the per-context copy of an arriving message - inside event skeletons, so that
     # what happens AFTER the failed call is checked too (a call that reported NNG_ENOMEM must have changed nothing: the functional checks apply again)
     from props import C05
